@@ -90,6 +90,17 @@ func (*c01) Corpus() []any {
 			{Op: mkOp("rollback", 0, eng.Flags{Version: 5})}, {Op: mkOp("uninstall", 0, eng.Flags{KeepHistory: true})},
 			{Op: mkOp("install", 7, eng.Flags{Replace: true}, "a")}, {Op: mkOp("uninstall", 0, eng.Flags{})}}})
 	}
+	// more than nine revisions (storage keys ...v10 sort before ...v2), then a history limit: pruning must
+	// work on the revision order, not on the order the driver lists the records in
+	for _, b := range []string{"secret", "configmap", "memory"} {
+		steps := []eng.Step{{Op: mkOp("install", 1, eng.Flags{}, "a")}}
+		for v := 2; v <= 11; v++ {
+			steps = append(steps, eng.Step{Op: mkOp("upgrade", v, eng.Flags{}, "a")})
+		}
+		steps = append(steps, eng.Step{Op: mkOp("upgrade", 12, eng.Flags{MaxHistory: 4}, "a")},
+			eng.Step{Op: mkOp("rollback", 0, eng.Flags{MaxHistory: 2})})
+		out = append(out, eng.History{Backend: b, Steps: steps})
+	}
 	return out
 }
 
@@ -97,50 +108,146 @@ func (*c01) Exhaustive(tier string) []any {
 	if tier != "thorough" {
 		return nil
 	}
-	// all histories of length <= 3 over the four operations x one flag each x every single crash/write-fault position
+	// Small scope, exhaustively: histories install; op2; op3 over {install, upgrade, rollback, uninstall} x
+	// {plain, atomic, replace+keep-history+max-history 1} (the first operation is an install: anything else on
+	// an empty history is refused before any write), each
+	//  - without fault,
+	//  - with every crash point 0..5 and every storage-write failure position 0..5 on the LAST operation,
+	//  - for length 3 also with each of these faults on the MIDDLE operation followed by a plain recovery
+	//    operation (crash / swallowed write error, then install --replace / upgrade / rollback / uninstall).
 	var out []any
 	kinds := []string{"install", "upgrade", "rollback", "uninstall"}
-	var rec func(prefix []eng.Step, depth int)
-	rec = func(prefix []eng.Step, depth int) {
-		if depth == 0 {
-			return
+	flagsOf := func(fi int) eng.Flags {
+		f := eng.Flags{}
+		switch fi {
+		case 1:
+			f.Atomic = true
+		case 2:
+			f.Replace, f.KeepHistory, f.MaxHistory = true, true, 1
 		}
-		for _, k := range kinds {
-			for fi := 0; fi < 3; fi++ {
-				f := eng.Flags{}
-				switch fi {
-				case 1:
-					f.Atomic = true
-				case 2:
-					f.Replace, f.KeepHistory, f.MaxHistory = true, true, 1
+		return f
+	}
+	faulted := func(op *eng.Op) []*eng.Op {
+		var r []*eng.Op
+		for n := 0; n < 6; n++ {
+			c, w := *op, *op
+			c.Crash, w.WFail = ipt(n), ipt(n)
+			r = append(r, &c, &w)
+		}
+		return r
+	}
+	emit := func(ops ...*eng.Op) {
+		st := make([]eng.Step, len(ops))
+		for i, o := range ops {
+			st[i] = eng.Step{Op: o}
+		}
+		out = append(out, eng.History{Backend: "secret", Steps: st})
+	}
+	for f1 := 0; f1 < 3; f1++ {
+		op1 := mkOp("install", 1, flagsOf(f1), "a", "b")
+		emit(op1)
+		for _, o := range faulted(op1) {
+			emit(o)
+		}
+		for _, k2 := range kinds {
+			for f2 := 0; f2 < 3; f2++ {
+				op2 := mkOp(k2, 2, flagsOf(f2), "a", "b")
+				emit(op1, op2)
+				for _, o := range faulted(op2) {
+					emit(op1, o)
+					for _, k3 := range kinds { // recovery after a fault in the middle
+						emit(op1, o, mkOp(k3, 3, eng.Flags{Replace: k3 == "install"}, "a", "b"))
+					}
 				}
-				op := mkOp(k, len(prefix)+1, f, "a", "b")
-				steps := append(append([]eng.Step{}, prefix...), eng.Step{Op: op})
-				out = append(out, eng.History{Backend: "secret", Steps: steps})
-				if depth == 1 {
-					for n := 0; n < 6; n++ {
-						for _, crash := range []bool{true, false} {
-							o2 := *op
-							if crash {
-								o2.Crash = ipt(n)
-							} else {
-								o2.WFail = ipt(n)
-							}
-							s2 := append(append([]eng.Step{}, prefix...), eng.Step{Op: &o2})
-							out = append(out, eng.History{Backend: "secret", Steps: s2})
+				for _, k3 := range kinds {
+					for f3 := 0; f3 < 3; f3++ {
+						op3 := mkOp(k3, 3, flagsOf(f3), "a", "b")
+						emit(op1, op2, op3)
+						for _, o := range faulted(op3) {
+							emit(op1, op2, o)
 						}
 					}
 				}
-				rec(steps, depth-1)
 			}
 		}
 	}
-	rec(nil, 3)
 	return out
 }
 
 func (*c01) Generate(r *rand.Rand, _ int) any {
+	if r.Intn(5) < 2 {
+		return genLedgerStress(r)
+	}
 	return eng.GenHistory(r, eng.GenOpts{Faults: true, Hooks: 2, Flags: true})
+}
+
+// genLedgerStress: longer histories (5-10 operations) aimed at the ledger clauses: many upgrades and
+// rollbacks with a history limit, failed upgrades (so that the deployed revision is not the last one and
+// failed revisions pile up for pruning), rollbacks to explicit existing revisions, keep-history uninstalls
+// followed by install --replace, and a few storage faults / crashes.
+func genLedgerStress(r *rand.Rand) eng.History {
+	h := eng.History{Backend: []string{"secret", "memory", "configmap"}[r.Intn(3)]}
+	n := 5 + r.Intn(6)
+	variant, top := 0, 0 // top: rough estimate of the highest revision so far
+	for i := 0; i < n; i++ {
+		kind := "install"
+		if i > 0 {
+			switch k := r.Intn(20); {
+			case k < 10:
+				kind = "upgrade"
+			case k < 15:
+				kind = "rollback"
+			case k < 17:
+				kind = "uninstall"
+			}
+		}
+		op := &eng.Op{Kind: kind}
+		f := &op.Flags
+		switch kind {
+		case "install":
+			f.Replace = i > 0 && r.Intn(5) > 0
+			f.Atomic = r.Intn(6) == 0
+		case "upgrade", "rollback":
+			if r.Intn(5) < 3 {
+				f.MaxHistory = 1 + r.Intn(4)
+			}
+			f.Atomic = kind == "upgrade" && r.Intn(4) == 0
+			f.Cleanup = r.Intn(5) == 0
+			if kind == "rollback" && r.Intn(2) == 0 && top > 0 {
+				f.Version = 1 + r.Intn(top)
+			}
+		case "uninstall":
+			f.KeepHistory = r.Intn(10) < 7
+		}
+		f.NoHooks = r.Intn(6) == 0
+		if kind == "install" || kind == "upgrade" {
+			variant++
+			op.ChartID, op.ValsID = variant, r.Intn(4)
+			op.Manifest = eng.GenManifest(r, variant, false)
+			op.Hooks = eng.GenHooks(r, 1)
+		}
+		switch k := r.Intn(20); {
+		case k < 11:
+		case k < 15:
+			op.WaitFail = true
+		case k < 17:
+			op.Crash = ipt(r.Intn(7))
+		case k < 18:
+			op.WFail = ipt(r.Intn(5))
+		default:
+			if len(op.Manifest) > 0 {
+				op.KFault = &eng.KFault{Verb: []string{"create", "patch"}[r.Intn(2)], Key: op.Manifest[r.Intn(len(op.Manifest))].Key()}
+			}
+		}
+		if kind != "uninstall" {
+			top++
+			if f.Atomic && kind == "upgrade" {
+				top++
+			}
+		}
+		h.Steps = append(h.Steps, eng.Step{Op: op})
+	}
+	return h
 }
 
 func engExecute(ci any) any {
@@ -167,7 +274,13 @@ func (*c01) Class(ci, _ any) string {
 			cls = "clusterfault"
 		}
 	}
-	return fmt.Sprintf("len%d/%s", len(h.Steps), cls)
+	lim := ""
+	for _, st := range h.Steps {
+		if st.Op != nil && st.Op.Flags.MaxHistory > 0 {
+			lim = "/limit"
+		}
+	}
+	return fmt.Sprintf("len%d/%s%s", len(h.Steps), cls, lim)
 }
 
 func (*c01) NonTrivial(_, oi any) bool {
@@ -268,6 +381,20 @@ func (*c01) Oracle(ci, oi any) []hx.Violation {
 				break
 			}
 		}
+		// the same on the trace of effective writes: every Create carries prevmax+1, a second one (only the
+		// automatic rollback of an atomic upgrade) prevmax+2 -- also when the record is gone again afterwards
+		var made []int
+		for _, e := range so.Trace {
+			if e.Store == "create" {
+				made = append(made, e.Rev)
+			}
+		}
+		for k, v := range made {
+			if v != pm+1+k || k > 1 || (k == 1 && !(op.Kind == "upgrade" && op.Flags.Atomic)) {
+				add("C01:revision-not-successor", fmt.Sprintf("step %d (%s): created revisions %v, highest before was %d", i, op.Kind, made, pm))
+				break
+			}
+		}
 		dry := op.Flags.IsDry()
 		if so.Outcome == "ok" && !dry {
 			var prevDep *eng.LedgerRow
@@ -311,6 +438,13 @@ func (*c01) Oracle(ci, oi any) []hx.Violation {
 				if !op.Flags.KeepHistory && len(led) != 0 {
 					add("C01:uninstall-left-history", fmt.Sprintf("step %d: uninstall without keep-history left %v", i, ledgerProj(led)))
 				}
+				if op.Flags.KeepHistory && (len(led) == 0 || led[len(led)-1].Status != "uninstalled" || led[len(led)-1].Rev != pm) {
+					sig := "C01:uninstall-keep-history-head-not-uninstalled"
+					if faulted {
+						sig = "C01:storage-write-error-swallowed"
+					}
+					add(sig, fmt.Sprintf("step %d: uninstall --keep-history succeeded but the history is %v", i, ledgerProj(led)))
+				}
 			}
 		}
 		// pruning (upgrade / rollback with max-history), only when no storage fault or crash was injected
@@ -342,6 +476,22 @@ func (*c01) Oracle(ci, oi any) []hx.Violation {
 						add("C01:pruned-not-oldest", fmt.Sprintf("step %d: pruning removed revision %d but kept older %d", i, x, y))
 					}
 				}
+			}
+			// exactly the oldest len(prev)-(n-1) revisions other than the deployed one (fewer only when there are no more)
+			var want []int
+			if len(prev) > n-1 {
+				for _, r := range prev { // prev is sorted by revision
+					if len(prev)-len(want) == n-1 {
+						break
+					}
+					if r.Rev != depBefore {
+						want = append(want, r.Rev)
+					}
+				}
+			}
+			sort.Ints(removed)
+			if fmt.Sprint(removed) != fmt.Sprint(want) {
+				add("C01:pruned-wrong-set", fmt.Sprintf("step %d: max-history %d over %v (deployed %d): removed %v, expected %v", i, n, ledgerProj(prev), depBefore, removed, want))
 			}
 			// the operation itself may add two revisions (atomic: failed + rollback)
 			if extra := len(fresh) - 1; len(led)-extra > n && !(len(led)-extra == n+1 && depBefore >= 0 && now[depBefore] && n == 1) {
